@@ -90,6 +90,7 @@ structure WSt where
   -- C09: the class of the frame the peer has just injected, and what we have sent since
   c09 : Option (String × Nat) := none
   c09Goaway : Bool := false           -- a GOAWAY with an error code
+  c09GoawayEarly : Bool := false      -- … already before the probe PING was sent (the probe must not be what provokes it)
   c09Rst : Bool := false              -- RST_STREAM for the stream concerned
   c09Pong : Bool := false             -- we answered the probe PING that followed the injection
   -- C08: consecutive polls of the connection task that woke itself without doing anything
